@@ -1016,6 +1016,11 @@ def unit(deg):
             u = ctx.fresh("tanhalf", lambda: math.tan(math.radians(float(tt.evalf(ctx.val))) / 2))
             d = 1 + u * u
             ctx.memo[key] = SComplex((1 - u * u) / d, 2 * u / d)
+            if ctx.memo.get("__link_tanhalf__") and term.v.denom.is_ground:
+                # sound for |angle| < 180 degrees (the harness that sets the flag bounds its angles): tan(angle/2) has the sign of the angle,
+                # so a counterexample cannot pair a non-zero phasor parameter with a zero angle (it would not replay)
+                a, b = term.num(), u.num()
+                ctx.side += [z3.Implies(a > 0, b > 0), z3.Implies(a < 0, b < 0), z3.Implies(a == 0, b == 0)]
         ph = ctx.memo[key]
         if power < 0:
             ph = ph.conjugate()
